@@ -56,8 +56,19 @@ class P(Prop):
         if rng.random() < 0.25:
             # escaped identifiers
             victims = [n for n in c.graph.nodes if "." not in n]
-            mp = {n: "\\" + n + rng.choice([".x", "[0]", "$"]) for n in rng.sample(victims, min(2, len(victims)))}
+            mp = {n: "\\" + n + rng.choice([".x", "[0]", "$", "", ""]) for n in rng.sample(victims, min(2, len(victims)))}
             c = cg.tx.relabel(c, mp)
+            # `\\en ` next to `en`: two different nodes for the library
+            twins = [v for k, v in mp.items() if v == "\\" + k and c.type(v) == "input"]
+            if twins and rng.random() < 0.5:
+                tw = twins[0][1:]
+                if tw not in c.graph.nodes:
+                    c.add(tw, "input")
+                    tgt = [g for g in c.graph.nodes if c.type(g) in gen.MULTI]
+                    if tgt:
+                        c.connect(tw, rng.choice(tgt))
+                    else:
+                        c.set_output(tw)
         return c
 
     def correspond(self, n):
